@@ -124,7 +124,13 @@ func (ti *TypeInfo) Enter(node ast.Node) {
 			ttype, _ = typeFromAST(*schema, node.TypeCondition)
 			ti.typeStack = append(ti.typeStack, ttype)
 		} else {
-			ti.typeStack = append(ti.typeStack, ti.Type())
+			// without a type condition the fragment applies to the named type of the
+			// enclosing field, not to its list / non-null wrapper
+			var named Output
+			if t := ti.Type(); t != nil {
+				named, _ = GetNamed(t).(Output)
+			}
+			ti.typeStack = append(ti.typeStack, named)
 		}
 	case *ast.FragmentDefinition:
 		typeConditionAST := node.TypeCondition
